@@ -43,7 +43,34 @@ func lookupExternal(fn *ssa.Function, name string) externalFn {
 			}
 		}
 	}
-	// methods of generic sync/atomic types: "(*sync/atomic.Pointer[T]).Load" run as real code
+	if fn.Blocks == nil && fn.Pkg != nil && fn.Pkg.Pkg.Path() == "math/big" {
+		// assembly leaves of math/big: run the pure-Go reference version (<name>_g)
+		if g := fn.Pkg.Func(fn.Name() + "_g"); g != nil && g.Blocks != nil {
+			return func(fr *frame, args []value) value {
+				return call(fr.i, fr, token.NoPos, g, args)
+			}
+		}
+	}
+	if strings.HasPrefix(name, "unique.Make[") {
+		// unique.Make[T](v): canonical pointer per (type, value); concrete values only
+		return func(fr *frame, args []value) value {
+			ks, ok := keyString(args[0])
+			if !ok {
+				panic(unsupported{"unique.Make of a symbolic value"})
+			}
+			key := name + "|" + ks
+			if fr.i.uniq == nil {
+				fr.i.uniq = map[string]*value{}
+			}
+			p, ok := fr.i.uniq[key]
+			if !ok {
+				p = new(value)
+				*p = copyVal(args[0])
+				fr.i.uniq[key] = p
+			}
+			return structure{p}
+		}
+	}
 	return nil
 }
 
@@ -414,3 +441,41 @@ func atomicCAS(fr *frame, a []value) value {
 func comparableType(t types.Type) bool { return types.Comparable(t) }
 
 var _ = strings.Contains
+
+func init() {
+	externals[rtPkg+"DeepCopy"] = func(fr *frame, a []value) value {
+		in := a[0].(iface)
+		if in.t == nil {
+			return in
+		}
+		return iface{in.t, deepCopy(in.t, in.v, map[*value]*value{}, 0)}
+	}
+	// CopyInto(dst, src): *dst = copy of *src (or of src when src is not a pointer)
+	externals[rtPkg+"CopyInto"] = func(fr *frame, a []value) value {
+		dst, src := a[0].(iface), a[1].(iface)
+		dp, ok := dst.t.Underlying().(*types.Pointer)
+		if !ok || src.t == nil {
+			return false
+		}
+		cell := dst.v.(*value)
+		memo := map[*value]*value{}
+		if sp, ok := src.t.Underlying().(*types.Pointer); ok && types.Identical(sp.Elem(), dp.Elem()) {
+			p := src.v.(*value)
+			if p == nil {
+				return false
+			}
+			store(fr.i, dp.Elem(), cell, deepCopy(dp.Elem(), *p, memo, 0))
+			return true
+		}
+		if types.Identical(src.t, dp.Elem()) {
+			store(fr.i, dp.Elem(), cell, deepCopy(src.t, src.v, memo, 0))
+			return true
+		}
+		// dst is *interface{}: store the value itself
+		if _, isIface := dp.Elem().Underlying().(*types.Interface); isIface {
+			fr.i.set(cell, iface{src.t, deepCopy(src.t, src.v, memo, 0)})
+			return true
+		}
+		return false
+	}
+}
